@@ -14,12 +14,12 @@ out.append("Every change below (except the two `own-*` probes, written by hand f
            "worktree (nothing from /verif), asked for a change that compiles, passes the full test suite and needs something\n"
            "specific to manifest. Each was confirmed in its scratch worktree (`tools/confirm_mutant.sh`: suite passes with the\n"
            "change, the agent's demonstration fails with it and passes without it) and is kept as `/verif/seeded/<id>/`\n"
-           "(`patch.diff`, `demo/`, `agent_README.md`, `confirm.log`, `meta.json`). Eight rounds (the last with four agents and two changes each); rounds 2 to 8 were told the\n"
+           "(`patch.diff`, `demo/`, `agent_README.md`, `confirm.log`, `meta.json`). Nine rounds (the eighth with four agents and two changes each, the ninth with three agents and one change each); rounds 2 to 9 were told the\n"
            "mechanisms of the earlier rounds and asked for different ones (round 4 for changes that need a rarely used language\n"
            "feature, a size, a numeric coincidence or an option pair; round 5 for clauses no earlier change had attacked, sites far\n"
            "from the anchor code and silent, self-consistent effects; round 6 for performance work including threads, stage\n"
            "boundaries, trait implementations and error-path-only code; round 7 for the environment and the encoding of inputs and\n"
-           "outputs: how paths look, text layout, position arithmetic, escaping, RUST_LOG; round 8 for small slips that come with\n"
+           "outputs: how paths look, text layout, position arithmetic, escaping, RUST_LOG; rounds 8 and 9 for small slips that come with\n"
            "an API swap or a boundary). Two patches (C02-r2-m1, C17-r5-m2) were re-based by hand after\n"
            "repairs of genuine defects touched the same lines; the agent's original is kept next to them as `patch.orig.diff`. Two round-1 changes (C17-m2, C01-m3) stopped breaking\n"
            "their property after repairs of genuine defects (parameter collision became an error; literals are reduced) and were\n"
